@@ -83,9 +83,11 @@ def parse_template(path):
         if w[0] == "include":
             if cur is not None:
                 raise Undecided(f"bad template {path}:{ln}: include inside extract")
+            parts.append(("text", f"// >>> include: {w[1]}"))
             with open(os.path.join(VERIF, w[1])) as inc:
                 for il in inc.read().rstrip("\n").split("\n"):
                     parts.append(("text", il))
+            parts.append(("text", f"// <<< include: {w[1]}"))
             continue
         if w[0] == "extract":
             if cur is not None:
